@@ -153,6 +153,17 @@ def _eval_expr(expr: ast.AST, env: Dict[str, object]):
         return tuple(eval_expr(e, env) for e in expr.elts)
     if isinstance(expr, ast.Set):
         return frozenset(eval_expr(e, env) for e in expr.elts)
+    if isinstance(expr, ast.Subscript) and not isinstance(expr.slice, ast.Slice):
+        v = eval_expr(expr.value, env)
+        k = eval_expr(expr.slice, env)
+        if isinstance(v, (tuple, list, dict, str)):
+            try:
+                return v[k]
+            except (IndexError, KeyError) as exc:
+                if env.get("__raw__") and isinstance(exc, KeyError):
+                    raise
+                raise Undecided(f"{norm(expr)} is not defined on the sample point")
+        raise Undecided(f"cannot evaluate {norm(expr)}")
     if isinstance(expr, ast.Dict) and all(k is not None for k in expr.keys):
         return {eval_expr(k, env): eval_expr(v, env) for k, v in zip(expr.keys, expr.values)}
     if isinstance(expr, ast.UnaryOp):
